@@ -132,6 +132,7 @@ fn targeted(seed: u64, run: u64) -> Trace {
             fixed: None,
         },
         plain488: false,
+        no_mav: false,
     };
     let mut t = base_trace("C01", seed, run, "targeted", cfg.clone());
     let n_int = (INT_TYPES.len() * BOUND_LITERALS.len()) as u64;
@@ -229,6 +230,13 @@ pub fn hostile_msg(rng: &mut Rng, tc: &TreeCtx, uniq: &mut u32) -> Msg {
             pulls,
             ..Default::default()
         };
+        if rng.chance(1, 10) {
+            // the error path (hook -> push_error -> class bit) with every kind of error number
+            plan.fail = Some(PlanFail {
+                err: gen_err_spec(rng),
+                phase: *rng.pick(&[Phase::Before, Phase::AfterPulls]),
+            });
+        }
         if query {
             let (hdr, data) = gen_response_plan(rng, uniq, 2);
             plan.hdr = hdr;
@@ -318,6 +326,7 @@ impl Prop for C01 {
             controllers: 1,
             tree,
             plain488: false,
+            no_mav: false,
         };
         let mut t = base_trace("C01", seed, run, "hostile", cfg.clone());
         let tc = TreeCtx::new(&cfg.tree);
